@@ -364,6 +364,20 @@ pub fn edits(root: &Node) -> Vec<(String, Vec<u8>)> {
                 if *width == 1 {
                     vals = (0..=255).collect();
                 }
+                if *width == 8 {
+                    // values congruent to the original modulo a field modulus (an integer absorbed
+                    // into a hash as a field element must not be accepted in any other form)
+                    for m in [0xFFFF_FFFF_0000_0001u64, 4611624995532046337u64] {
+                        for k in 1..=3u64 {
+                            if let Some(v) = m.checked_mul(k).and_then(|km| value.checked_add(km)) {
+                                vals.push(v);
+                            }
+                            if let Some(v) = m.checked_mul(k).and_then(|km| value.checked_sub(km)) {
+                                vals.push(v);
+                            }
+                        }
+                    }
+                }
                 vals.sort();
                 vals.dedup();
                 for v in vals {
